@@ -132,6 +132,24 @@ structure Kind where
   /-- block layout produced by the copy constructor from the blocks of the source -/
   rebuild : List (List Elem) → List (List Elem) := fun ls => ls
 
+/-- `xs` cut into consecutive pieces of `sizes seg`, `sizes (seg+1)`, … items (at least one each) -/
+def chunk (sizes : Nat → Nat) : Nat → Nat → List Elem → List (List Elem)
+  | 0, _, _ => []
+  | fuel + 1, seg, xs =>
+    if xs.isEmpty then [] else
+    xs.take (max 1 (sizes seg)) :: chunk sizes fuel (seg + 1) (xs.drop (max 1 (sizes seg)))
+
+/-- copy constructors' block layouts (`Kind.rebuild`).
+    `Array(const Array&)` (one buffer of capacity = count), `HashSet(const HashSet&)` (one presized bucket array),
+    `DataTable(const DataTable&)` (one raw array): everything in one block -/
+def rebuildOne : List (List Elem) → List (List Elem) := fun ls => [ls.flatten]
+/-- `TreeSet::pvCopy`: node by node, same tree shape -/
+def rebuildSame : List (List Elem) → List (List Elem) := fun ls => ls
+/-- `SegmentedArray(const SegmentedArray&)`: `pvIncCapacity(0, count)` then `AddBackNogrow`: the segment-pointer array
+    followed by full segments of `sizes 0`, `sizes 1`, … items -/
+def rebuildSeg (sizes : Nat → Nat) : List (List Elem) → List (List Elem) :=
+  fun ls => [] :: chunk sizes (ls.flatten.length + 1) 0 ls.flatten
+
 def Kind.auxCount (k : Kind) : Nat := (if k.crewPtr then 1 else 0) + k.ctorAux
 
 /-- state left behind by the move constructor: every pointer null, count 0; an inline manager stays
